@@ -143,3 +143,23 @@ theorem abort_prefix_noFinish (alg : Alg) (E : Env) (os oe ns ne : Nat) (w : Wor
   HookFail.diff_noFinish alg E os oe ns ne w native k hInf
 
 end SimilarVerif.C08
+
+namespace SimilarVerif.C08
+open SimilarVerif Spec
+
+/-- Myers finishes the hook exactly once and last, on every input and clock (unconditional) -/
+theorem myers_finish_once_last_total (E : Env) (os oe ns ne : Nat) (w : World) (ho : os ≤ oe) (hn : ns ≤ ne)
+    (hb : InBounds E os oe ns ne) :
+    ∃ r w', rawTrace .myers E os oe ns ne w = .ok (r, w') ∧ r.trace.getLast? = some .finish ∧
+      (r.trace.filter (· == .finish)).length = 1 := by
+  obtain ⟨r, w', h, hv⟩ := C01.myers_total_valid E os oe ns ne w ho hn hb
+  exact ⟨r, w', h, finish_once_last E os oe ns ne r.trace hv⟩
+
+/-- Patience, whenever it returns, has finished the hook exactly once and last -/
+theorem patience_finish_once_last (E : Env) (os oe ns ne : Nat) (w : World) (r' : Rec) (w' : World)
+    (ho : os ≤ oe) (hn : ns ≤ ne) (hb : InBounds E os oe ns ne)
+    (h : rawTrace .patience E os oe ns ne w = .ok (r', w')) :
+    r'.trace.getLast? = some .finish ∧ (r'.trace.filter (· == .finish)).length = 1 :=
+  finish_once_last E os oe ns ne r'.trace (C01.patience_valid_if_returns E os oe ns ne w r' w' ho hn hb h)
+
+end SimilarVerif.C08
